@@ -52,13 +52,21 @@ def make_case_call(rng):
         tok = None
     L, R, tk = gen.random_table_pair(rng, tok=tok or {'kind': 'ws', 'return_set': True},
                                      max_rows=rng.choice([3, 6, 12]), missing=0.15)
-    C = gen.random_candset(rng, L, R, 'lid', 'rid')
+    lkey, rkey = 'lid', 'rid'
+    if rng.random() < 0.12:
+        # the (unique, never missing) match attribute is also the key attribute
+        for spec, side in ((L, 'l'), (R, 'r')):
+            vals = spec['data'][side + 'attr']
+            spec['data'][side + 'attr'] = ['%s u%d' % (v if isinstance(v, str) else 'x', i)
+                                           for i, v in enumerate(vals)]
+        lkey, rkey = 'lattr', 'rattr'
+    C = gen.random_candset(rng, L, R, lkey, rkey)
     call = {'api': 'apply_matcher', 'ltable': L, 'rtable': R, 'candset': C,
-            'c_l_key': 'l_lid', 'c_r_key': 'r_rid', 'l_key': 'lid', 'r_key': 'rid',
+            'c_l_key': 'l_' + lkey, 'c_r_key': 'r_' + rkey, 'l_key': lkey, 'r_key': rkey,
             'l_attr': 'lattr', 'r_attr': 'rattr', 'tok': tok, 'sim': simname,
             'comp_op': rng.choice(OPS6), 'allow_missing': rng.random() < 0.4,
-            'l_out_attrs': gen.random_out_attrs(rng, L, 'lid', 'lattr'),
-            'r_out_attrs': gen.random_out_attrs(rng, R, 'rid', 'rattr'),
+            'l_out_attrs': gen.random_out_attrs(rng, L, lkey, 'lattr'),
+            'r_out_attrs': gen.random_out_attrs(rng, R, rkey, 'rattr'),
             'out_sim_score': rng.random() < 0.8, 'n_jobs': rng.choice([1, 1, 2, 3, 50, -1])}
     if rng.random() < 0.3:
         call['l_out_prefix'], call['r_out_prefix'] = rng.choice([('left_', 'right_'), ('a.', 'b.')])
